@@ -297,6 +297,8 @@ THEOREMS = [
     "clone_independent_blake", "chunking_blake_variants",
     "skein_machine_ops", "skein_digest", "chunking_skein", "history_refines_skein",
     "clone_independent_skein", "chunking_skein_variants",
+    # source tie: block-buffer / block-padding / digest / cipher as regenerated from the pinned crate sources
+    "source_blockbuffer_match",
 ]
 
 PROP = dict(
